@@ -30,6 +30,8 @@ Apply(S, act) ==
     [] act.a = "plan"           -> [S EXCEPT !.dialPlan = act.plan]
     [] act.a = "connect"        -> EnvConnect(S)
     [] act.a = "feed"           -> EnvFeed(S, act.c, MsgsFromJson(act.ms))
+    [] act.a = "garbage"        -> EnvFeed(S, act.c, <<[cmd |-> "GARBAGE"]>>)
+    [] act.a = "frag"           -> [EnvFeed(S, act.c, IF act.i < act.n THEN <<>> ELSE <<FromJson(act.m)>>) EXCEPT !.frag[act.c] = act.i < act.n]
     [] act.a = "peer_close"     -> EnvPeerClose(S, act.c)
     [] act.a = "peer_reset"     -> EnvPeerReset(S, act.c)
     [] act.a = "connect_result" -> EnvConnectResult(S, act.c, act.err)
